@@ -18,6 +18,13 @@ caller: the waiters of the old actor are *cancelled by their owners*, they are n
 (and the `expect("Failed to receive reply …")` in `notify_read` is unreachable short of a runtime
 shutdown).  The new actor starts with an empty obligations map and the same `kv`.
 
+A caller may also abandon ONE pending `notify_read` (its future is dropped by a losing `select!`
+branch, as in the synchronizers).  The actor is not told: the waiter stays in `obl`, the later
+`send` to it fails and the failure is ignored (`let _ = s.send(..)`), and the loop goes on to the
+next waiter.  So cancellation is not a command of the model; a `notified w v` reply addressed to
+an abandoned waiter is a send nobody observes (the store engine's `cancel w` op drops the real
+future and removes exactly those replies from the expected output).
+
 `db.put` / `db.get` errors are ignored by the code (`let _ = db.put`) and are not modelled.
 -/
 namespace HS.Store
